@@ -115,10 +115,15 @@ func (s *ftpService) SetChannel(c pushers.Channel) {
 
 func (s *ftpService) Handle(ctx context.Context, conn net.Conn) error {
 
-	ftpConn := s.server.newConn(conn, s.driver, s.recv)
+	// one channel per connection, closed when the session ends, so that the pump
+	// goroutine finishes with it
+	recv := make(chan string)
+	defer close(recv)
+
+	ftpConn := s.server.newConn(conn, s.driver, recv)
 
 	go func() {
-		for msg := range s.recv {
+		for msg := range recv {
 			s.c.Send(event.New(
 				services.EventOptions,
 				event.Category("ftp"),
